@@ -145,6 +145,9 @@ def scalar (o : PrettyOpts) (par : Option Par) (ind col : Nat) (t : Bytes) : Out
     let c2 := if b2 then ind else c1
     ⟨cm ++ ((if b1 then nl o ind else []) ++ ((if b2 then nl o ind else []) ++ t)), c2 + t.length, b1 || b2⟩
 
+/-- `static_cast<uint8_t>(option) >= static_cast<uint8_t>(stack_.back().split_kind()) ? option : stack_.back().split_kind()` -/
+def childSplit (opt parent : Nat) : Nat := if opt ≥ parent then opt else parent
+
 /-- the part of visit_begin_object before `stack_.emplace_back`: (bytes, column_, parent new_line_after set, split kind of the new context) -/
 def beginObject (o : PrettyOpts) (par : Option Par) (ind col : Nat) : Bytes × Nat × Bool × Nat :=
   match par with
@@ -153,11 +156,11 @@ def beginObject (o : PrettyOpts) (par : Option Par) (ind col : Nat) : Bytes × N
     let cm := elemComma o (some p)
     let c0 := col + cm.length
     if p.isObj then
-      let split := if o.oo ≥ p.split then o.oo else p.split
+      let split := childSplit o.oo p.split
       let b := split != 0 && decide (o.limit ≤ c0)
       (cm ++ (if b then nl o ind else []), if b then ind else c0, b, split)
     else
-      let split := if o.ao ≥ p.split then o.ao else p.split
+      let split := childSplit o.ao p.split
       (cm ++ nl o ind, ind, !(split == 2 && decide (o.limit ≤ c0)), split)
 
 /-- the part of visit_begin_array before `indent()`: (bytes, column_, parent new_line_after set, split kind, indent_before) -/
@@ -168,10 +171,10 @@ def beginArray (o : PrettyOpts) (par : Option Par) (ind col : Nat) : Bytes × Na
     let cm := elemComma o (some p)
     let c0 := col + cm.length
     if p.isObj then
-      let split := if o.oa ≥ p.split then o.oa else p.split
+      let split := childSplit o.oa p.split
       (cm, c0, false, split, split != 2)
     else
-      let split := if o.aa ≥ p.split then o.aa else p.split
+      let split := childSplit o.aa p.split
       if split == 2 then
         let b := p.split == 0
         (cm ++ (if b then nl o ind else []), if b then ind else c0, b, split, false)
